@@ -409,6 +409,29 @@ def run_blocks(ctx, i):
         if ok:
             Er = E[np.ix_(keep, keep)]
             ctx.check(Hr.shape == Er.shape and np.array_equal(Hr, Er), "blocks.reduced", order=order, got=Hr, expected=Er, **W)
+    # the regularization matrix handed on through the library's own preload producer (two fits of identical inputs): a later
+    # inversion that takes it from there still reports the all-zero blocks and the object order
+    if any(o is not None for o in own):
+        class FitLike:
+            def __init__(self, inv_):
+                self.inversion = inv_
+        try:
+            i0 = aa.Inversion(dataset=case["ds"], linear_obj_list=objs, settings=st)
+            i1 = aa.Inversion(dataset=case["ds"], linear_obj_list=objs, settings=st)
+            pre = aa.Preloads()
+            pre.set_regularization_matrix_and_term(FitLike(i0), FitLike(i1))
+            filled = pre.regularization_matrix is not None
+        except Exception as e:
+            filled = False
+            ctx.skipped["blocks.via_preload_producer:producer_raised_" + type(e).__name__] += 1
+        if filled:
+            ok, got = ctx.guarded("blocks.via_preload_producer", lambda: (lambda v: (_np(v.regularization_matrix).astype(float), _np(v.regularization_matrix_reduced).astype(float)))(
+                aa.Inversion(dataset=case["ds"], linear_obj_list=objs, settings=st, preloads=pre)))
+            if ok:
+                E = expected(ident)
+                keep = np.concatenate([np.arange(offs[j], offs[j + 1]) for j in ident if own[j] is not None]).astype(int)
+                ctx.check(got[0].shape == E.shape and np.array_equal(got[0], E) and got[1].shape == (len(keep), len(keep)) and np.array_equal(got[1], E[np.ix_(keep, keep)]),
+                          "blocks.via_preload_producer", got=got[0], expected=E, got_reduced_shape=got[1].shape, **W)
     ctx.case("blocks", [d["kind"] for d in desc], [d["regularized"] for d in desc], case["m"], *[o for o in own if o is not None],
              nontrivial=any(o is None for o in own) or len(objs) > 1,
              cls=["blocks:nobj=%d" % len(objs)] + (["blocks:has_unregularized"] if any(o is None for o in own) else []),
